@@ -681,7 +681,7 @@ func rdbOracle(prefix string, scn rdbScenario, built *rdbBuilt, out *rdbOutcome)
 	if len(built.Expect) > 1 {
 		shape = "multi-key"
 	}
-	if scn.Version < 5 {
+	if scn.Version < 5 && out.Err != nil && strings.Contains(out.Err.Error(), "parse rdb checksum error") {
 		shape = "rdb-version-below-5"
 	}
 	detail := func(extra map[string]interface{}) map[string]interface{} {
@@ -825,6 +825,9 @@ func rdbExpClass(x string) string {
 func rdbExec(t *testing.T, prefix string, scn rdbScenario, ch *mc.Chooser, hooks *rdbHooks) mc.Result {
 	var res mc.Result
 	msg := bubble(t, func() {
+		// the bubble's clock starts at a round second; move to an instant that is neither a
+		// whole second nor a whole millisecond so that unit mix-ups cannot hide
+		time.Sleep(1234567 * time.Microsecond)
 		built, err := rdbBuild(scn, time.Now().UnixMilli())
 		if err != nil {
 			res = mc.Result{Verdict: "machinery", Clause: "generator: " + err.Error()}
